@@ -385,9 +385,9 @@ func c17Worker(r *evid.Run, w, n int) {
 			b = 2
 		}
 		if th {
-			b++
+			b = 2
 			if len(sc.ops) == 3 {
-				b = 2
+				b = 1
 			}
 		}
 		if v := os.Getenv("VERIF_C17_BOUND"); v != "" {
@@ -563,7 +563,7 @@ func init() {
 			r.Set("exhaustive", false)
 			appendNote(r, "caps_hit", fmt.Sprintf("%d of %d scenarios completed before the internal deadline", r.Get("scenarios_completed"), len(scs)))
 		}
-		bound := map[bool]string{false: "1 (2 for pairs within an 8-operation core)", true: "2 (3 for pairs within an 11-operation core; 2 for triples)"}[th]
+		bound := map[bool]string{false: "1 (2 for pairs within an 8-operation core)", true: "2 for all pairs; 1 for triples"}[th]
 		r.Set("rule", fmt.Sprintf("controlled cooperative scheduler over the instrumented build: %d operations on shared fixtures (setter-built, decoded, invalid and extension claims-sets, decoded and signing Evidence) and on private objects; every unordered pair of operations including each operation with itself (%d scenarios%s) run as 2-3 threads; (a) ALL interleavings, no preemption bound, at sync operations and at accesses on which threads conflict (conflict set learned to a fixpoint; accesses that never conflict commute), (b) ALL interleavings at every instrumented store / package-level access / map access with at most %s preemptions; per schedule: no write-write or read-write race without happens-before, no store into a shared fixture, no package-level write, each thread's result equals its sequential result, deep snapshots of all fixtures and of the register unchanged, no deadlock; states = scenarios, evaluations = schedules", len(ops), len(ops)*(len(ops)+1)/2, map[bool]string{false: "", true: " + 120 triples over an 8-operation core"}[th], bound))
 		r.Set("distinct_nontrivial", max64(r.Get("schedules")-1, 0))
 		r.Set("bounds", map[string]any{"threads": "2 (pairs), 3 (triples, thorough)", "preemption_bound": bound, "operations": len(ops), "scenarios": len(scs)})
